@@ -68,6 +68,38 @@ def judge_mismatch(out, sent):
     return None
 
 
+def gen_leave(rng):
+    """two clients; one leaves (drops its socket) in the very server frame in which the other one's messages are read: the
+    departure of one connection must not cost another connection's messages"""
+    steps = ["C0new", "sl", "Su", "C0u", "C1new", "sl", "Su", "C1u", "sl", "Su", "C0u", "C1u"]
+    sent, seq = [], 0
+    for _ in range(rng.randrange(1, 4)):
+        stay, leave = (1, 0) if rng.random() < 0.7 else (0, 1)
+        for _ in range(rng.choice([1, 4, 12])):
+            k = rng.randrange(5)
+            seq += 1
+            steps.append("c%d:%d:%d" % (stay, k, rng.choice([0, 10, 300])))
+            sent.append((k, seq))
+        steps.append("C%du" % stay)                       # on the wire
+        steps += ["C%ddrop" % leave, "C%du" % leave, "sl", "Su", "Su"]      # the server sees end-of-stream and the messages in one frame
+        steps += ["C%dconn" % leave, "sl", "Su", "C%du" % leave, "sl", "Su"]
+    steps += ["C0u", "C1u", "sl", "Su", "Su"]
+    return steps, sent
+
+
+def judge_leave(out, sent):
+    if "=" not in out:
+        return "the example backend did not come up or panicked"
+    have = [(x[1], x[2]) for x in parse(out).get("S", []) if x[0] == "R"]
+    if sorted(have) != sorted(sent):
+        return "client -> server messages of the client that stayed were lost or duplicated when the other client left (sent %d, arrived %d)" % (len(sent), len(have))
+    for k in (0, 2, 4):
+        o = [sq for (kk, sq) in have if kk == k]
+        if o != sorted(o):
+            return "ordered channel %d out of sending order %r" % (k, o[:20])
+    return None
+
+
 def gen_late(rng):
     """messages pile up in the client's socket before the client app's FIRST frame (and between later frames): every one must
     arrive exactly once, the ordered channel in sending order"""
